@@ -912,6 +912,14 @@ class Interp:
             env[nme] = sv
             uf_args.append(sv)
         uf_args = [a for a in uf_args if a is not None]
+        for g, gty in c.ghost.items():
+            # a callee postcondition with ghosts is universally quantified: instantiate it with the caller's
+            # same-named ghost (pointwise facts flow along) or, failing that, with an arbitrary fresh constant
+            cand = st.env.get(g)
+            if isinstance(cand, SV) and cand.ty == parse_ty(gty):
+                env[g] = cand
+            else:
+                env[g] = core.fresh(parse_ty(gty), g)
         cst = State(env, st.pc, st.decisions, st.assumed)
         cmod = contract_module(c)
         for g, gexpr in c.where.items():
